@@ -18,6 +18,7 @@
  */
 
 use air_interpreter_data::TraceLen;
+use num_traits::CheckedAdd;
 
 use super::ExecutedState;
 use super::ExecutionTrace;
@@ -73,7 +74,10 @@ impl TraceSlider {
 
     pub(crate) fn set_position_and_len(&mut self, position: TracePos, subtrace_len: TraceLen) -> KeeperResult<()> {
         // it's possible to set empty subtrace_len and inconsistent position
-        if subtrace_len != 0 && position + subtrace_len > self.trace.trace_states_count().into() {
+        // both values could come from untrusted data, so their sum must not be computed unchecked
+        let trace_len: TracePos = self.trace.trace_states_count().into();
+        let fits_trace = matches!(position.checked_add(&subtrace_len.into()), Some(end_pos) if end_pos <= trace_len);
+        if subtrace_len != 0 && !fits_trace {
             return Err(SetSubtraceLenAndPosFailed {
                 requested_pos: position,
                 requested_subtrace_len: subtrace_len,
